@@ -155,6 +155,11 @@ def build(rng, pattern, cell_cls, atol, n_copies=2, crossings=None, poses=None, 
             cell = c2
             int_cell = 1 + int(rng.integers(2))
     narrow = False
+    PREFIX = {"C": ["Cu", "Cl", "Co"], "N": ["Ni", "Na"], "O": ["Os"], "S": ["Si", "Sn"], "H": ["Hf", "He"], "B": ["Br", "Ba"], "F": ["Fe"], "P": ["Pt", "Pd"]}
+    ext = [x for e in dict.fromkeys(pels) for x in PREFIX.get(e, [])]
+    if bystander_elements == ("Ar", "Kr", "Xe") and ext and rng.integers(3) == 0:
+        # the other atoms are of elements whose symbols BEGIN with a pattern element's symbol (C / Cu, N / Ni, S / Si ...)
+        bystander_elements = tuple(ext)
     if bystander_elements == ("Ar", "Kr", "Xe") and rng.integers(4) == 0:
         # a structure of one-letter elements only (when the pattern has only such), with its per-type tables held as numpy
         # arrays of narrow fixed-width strings - the state every product of extend/replace is in
